@@ -4,6 +4,7 @@ package checks
 import (
 	_ "verifmc/checks/c06"
 	_ "verifmc/checks/c14"
+	_ "verifmc/checks/c16"
 	_ "verifmc/checks/c17"
 	_ "verifmc/checks/c18"
 )
